@@ -7,6 +7,7 @@ import fcntl
 import hashlib
 import json
 import os
+import re
 import subprocess
 import sys
 import time
@@ -886,6 +887,75 @@ def _closure_env(body):
     return env
 
 
+def _option_results_as_returns(body):
+    """A copy of a function body whose results are all `Some(X)` / `None` (as `return` values or in tail position) in which `Some(X)`
+    reads `return X` and `None` reads `()`; None if some result is neither."""
+    def conv_ret(n):
+        if isinstance(n, list):
+            out_ = []
+            for x in n:
+                y = conv_ret(x)
+                if y is None:
+                    return None
+                out_.append(y)
+            return out_
+        if not isinstance(n, dict):
+            return n
+        if n.get("k") == "Closure":
+            return n
+        if n.get("k") == "Return":
+            v = peel(n["value"]) if n.get("value") is not None else None
+            if v is not None and adt_is(v, "Option", "Some"):
+                return dict(n, value=v["fields"][0]["e"])
+            return None  # `return None` (skip the rest and fall through) or another value: not expressible in place
+        out_ = {}
+        for kk, vv in n.items():
+            if kk == "pat" or not isinstance(vv, (dict, list)):
+                out_[kk] = vv
+            else:
+                y = conv_ret(vv)
+                if y is None and vv is not None:
+                    return None
+                out_[kk] = y
+        return out_
+
+    def conv_tail(n):
+        n0 = n
+        k = n.get("k")
+        if k in ("Borrow", "Deref", "Coerce", "ByUse"):
+            return None
+        if k == "Block":
+            if n.get("expr") is None:
+                return None
+            t = conv_tail(n["expr"])
+            if t is None:
+                return None
+            stmts = list(n["stmts"]) + [{"k": "Expr", "e": t}]
+            return dict(n, stmts=stmts, expr=None, ty="()")
+        if k == "If" and n.get("else") is not None:
+            a, b = conv_tail(n["then"]), conv_tail(n["else"])
+            return None if a is None or b is None else dict(n, then=a, **{"else": b}, ty="()")
+        if k == "Match":
+            arms = []
+            for a in n["arms"]:
+                t = conv_tail(a["body"])
+                if t is None:
+                    return None
+                arms.append(dict(a, body=t))
+            return dict(n, arms=arms, ty="()")
+        if adt_is(n, "Option", "Some"):
+            return {"k": "Return", "ty": "!", "sp": n.get("sp"), "value": n["fields"][0]["e"]}
+        if adt_is(n, "Option", "None"):
+            return {"k": "Tuple", "ty": "()", "sp": n.get("sp"), "fields": []}
+        if k == "Return":
+            return n0
+        return None
+    b = conv_ret(body)
+    if b is None:
+        return None
+    return conv_tail(b)
+
+
 def _inline_closure_call(out, cdef, F, depth):
     """`f(args)` where f is the local closure `cdef`: the closure body with its parameters bound (None if not expressible)."""
     tup = peel(out["args"][1])
@@ -993,6 +1063,52 @@ def _normalise(n, F, depth, tail=False, under_try=False):
         else:
             out[key] = v
     k = out.get("k")
+    # (0d) a match that only binds and tests guards (`match x { n if c1(n) => A, n if c2(n) => B, _ => C }`) is the if/else chain
+    if k == "Match" and len(out["arms"]) >= 2 and all(strip_ref(a["pat"]).get("k") in ("Bind", "Wild") and not strip_ref(a["pat"]).get("sub") for a in out["arms"]) \
+            and all(a.get("guard") is not None for a in out["arms"][:-1]) and out["arms"][-1].get("guard") is None and peel(out["scrut"]).get("k") in ("Var", "Upvar"):
+        chain = None
+        for a in reversed(out["arms"]):
+            pb = strip_ref(a["pat"])
+            m_ = {pb["id"]: out["scrut"]} if pb.get("k") == "Bind" else {}
+            body = _subst(a["body"], m_) if m_ else a["body"]
+            if chain is None:
+                chain = body
+            else:
+                chain = {"k": "If", "ty": out.get("ty"), "sp": a.get("sp") or out.get("sp"), "cond": _subst(a["guard"], m_) if m_ else a["guard"], "then": body, "else": chain}
+        return chain
+    # (0c) `if let Some(r) = helper(args) { return r; }` where every result of the helper is `Some(X)` / `None`:
+    #      the helper's body in place, with `Some(X)` results as `return X` and `None` results falling through
+    if k == "If" and out.get("else") is None and peel(out["cond"]).get("k") == "LetCond" and depth < 3:
+        lc = peel(out["cond"])
+        call = peel(lc["arg"])
+        pb = strip_ref(subpat(lc["pat"], 0)) if variant_of(lc["pat"]) == ("Option", "Some") else None
+        th = unblock(out["then"])
+        while th.get("k") == "Block" and len(th["stmts"]) + (1 if th.get("expr") is not None else 0) == 1:
+            th = unblock(th["stmts"][0]["e"] if th["stmts"] else th["expr"])
+        callee = F.fns.get(call.get("fn")) if call.get("k") == "Call" and call.get("local") else None
+        if callee is not None and pb is not None and pb.get("k") == "Bind" and th.get("k") == "Return" and th.get("value") is not None and peel(th["value"]).get("k") == "Var" \
+                and peel(th["value"])["id"] == pb["id"] and callee.thir is not None and not is_anchor(callee.name) and len(callee.thir["params"]) == len(call["args"]) \
+                and all(p.get("pat") is not None and p["pat"].get("k") == "Bind" for p in callee.thir["params"]) and _count(callee.raw_body) <= HELPER_MAX_NODES \
+                and not any(x.get("k") == "Call" and x.get("fn") == callee.name for x in walk(callee.raw_body)):
+            conv = _option_results_as_returns(callee.raw_body)
+            if conv is not None:
+                _inline_counter[0] += 1
+                off = 1000000 * _inline_counter[0]
+                stmts = []
+                sub_ = {}
+                for p, a in zip(callee.thir["params"], call["args"]):
+                    core_a = peel(a)
+                    if core_a.get("k") in ("Var", "Upvar", "Lit", "Const"):
+                        sub_[p["pat"]["id"] + off] = a
+                    else:
+                        stmts.append({"k": "Let", "sp": out["sp"], "pat": _reid(p["pat"], off), "init": a, "else": None})
+                _CLOSURES.append(_closure_env(conv))
+                try:
+                    inner = _subst(_reid(_normalise(conv, F, depth + 1), off), sub_)
+                finally:
+                    _CLOSURES.pop()
+                stmts.append({"k": "Expr", "e": inner})
+                return {"k": "Block", "ty": "()", "sp": out["sp"], "unsafe": False, "stmts": stmts, "expr": None, "inlined": callee.name}
     # (0a) `while let Some(p) = it.next() { body }` is `for p in it.by_ref() { body }`
     if k == "Loop":
         b_ = unblock(out["body"])
@@ -1132,10 +1248,19 @@ def _normalise(n, F, depth, tail=False, under_try=False):
                                   {"k": "Expr", "e": loop}],
                         "expr": outv, "collected": True}
     # (2b) short-circuiting adaptors with a closure are the flag loops they stand for
-    if k == "Call" and (out.get("fn") or "").endswith(("Iterator::any", "Iterator::all")) and len(out["args"]) == 2 and peel(out["args"][1]).get("k") == "Closure":
-        clo = F.fns.get(peel(out["args"][1])["def"])
-        ps = [p for p in clo.thir["params"] if p.get("pat") is not None] if clo is not None and clo.thir is not None else []
-        cbody = _unreturn(clo.raw_body) if ps else None
+    if k == "Call" and (out.get("fn") or "").endswith(("Iterator::any", "Iterator::all")) and len(out["args"]) == 2 and peel(out["args"][1]).get("k") in ("Closure", "Zst"):
+        if peel(out["args"][1]).get("k") == "Zst":
+            # `.all(predicate_fn)`: the same as `.all(|x| predicate_fn(x))`
+            fnitem = peel(out["args"][1])
+            _inline_counter[0] += 1
+            xid = 1000000 * _inline_counter[0] + 999993
+            xv = {"k": "Var", "ty": "?", "sp": out["sp"], "name": "item", "id": xid}
+            ps = [{"ty": "?", "pat": {"k": "Bind", "ty": "?", "name": "item", "id": xid, "mode": "BindingMode(No, Not)", "sub": None}}] if fnitem.get("fn") else []
+            cbody = {"k": "Call", "ty": "bool", "sp": out["sp"], "fn": fnitem.get("fn"), "local": fnitem.get("fn") in F.fns, "gen": [], "hir_call": True, "args": [xv]} if ps else None
+        else:
+            clo = F.fns.get(peel(out["args"][1])["def"])
+            ps = [p for p in clo.thir["params"] if p.get("pat") is not None] if clo is not None and clo.thir is not None else []
+            cbody = _unreturn(clo.raw_body) if ps else None
         is_any = (out.get("fn") or "").endswith("Iterator::any")
         _inline_counter[0] += 1
         fid = 1000000 * _inline_counter[0] + 999998
@@ -1269,6 +1394,23 @@ def _normalise(n, F, depth, tail=False, under_try=False):
                 body = _normalise(clo.raw_body, F, depth + 1)
                 push = {"k": "Call", "ty": "()", "sp": out["sp"], "fn": "std::vec::Vec::<T, A>::push", "local": False, "gen": [], "hir_call": False, "args": [out["args"][0], body]}
                 return {"k": "For", "ty": "()", "sp": out["sp"], "pat": ps[0]["pat"], "iter": m["args"][0], "body": push, "extended": True}
+    # (3b) `v.resize_with(n, || e)` / `v.resize(n, e)` on a vector (empty at that point: the rules that measure it check its initialiser)
+    #      is `for _ in 0..n { v.push(e) }`
+    if k == "Call" and (out.get("fn") or "").endswith(("Vec::<T, A>::resize_with", "Vec::<T, A>::resize")) and len(out["args"]) == 3:
+        sp = out["sp"]
+        val = None
+        if out["fn"].endswith("resize_with") and peel(out["args"][2]).get("k") == "Closure":
+            clo = F.fns.get(peel(out["args"][2])["def"])
+            if clo is not None and clo.thir is not None and not [p for p in clo.thir["params"] if p.get("pat") is not None]:
+                val = _normalise(_unreturn(clo.raw_body), F, depth + 1)
+        elif out["fn"].endswith("::resize") and peel(out["args"][2]).get("k") in ("Adt", "Lit", "Const"):
+            val = out["args"][2]
+        if val is not None:
+            rng = {"k": "Adt", "ty": "std::ops::Range<usize>", "sp": sp, "adt": "std::ops::Range", "variant": "Range",
+                   "fields": [{"name": "start", "e": {"k": "Lit", "ty": "usize", "sp": sp, "neg": False, "v": "i:0"}}, {"name": "end", "e": out["args"][1]}]}
+            push = {"k": "Call", "ty": "()", "sp": sp, "fn": "std::vec::Vec::<T, A>::push", "local": False, "gen": [], "hir_call": False, "args": [out["args"][0], val]}
+            return {"k": "For", "ty": "()", "sp": sp, "pat": {"k": "Wild", "ty": "usize"}, "iter": rng,
+                    "body": {"k": "Block", "ty": "()", "sp": sp, "unsafe": False, "stmts": [{"k": "Expr", "e": push}], "expr": None}, "filled": True}
     # (4) `vec![e; n]` is `let mut v = Vec::with_capacity(n); for _ in 0..n { v.push(e) }; v`
     if k == "Call" and (out.get("fn") or "").endswith("vec::from_elem") and len(out["args"]) == 2 and peel(out["args"][0]).get("k") in ("Adt", "Lit", "Const", "Var"):
         sp = out["sp"]
@@ -1311,10 +1453,42 @@ def _closed_value(n):
     return False
 
 
+_ANCHOR_SIGS = None
+
+
+def _anchor_aliases(d):
+    """{new name: anchor name} for anchor functions that are gone from the tree while exactly one other function has the anchor's
+    (unique) signature: a renamed or moved anchor (e.g. a free function turned into a method).  The table of signatures was taken
+    from the pinned tree (rules/anchor_sigs.json); only signatures that were unique there are used."""
+    global _ANCHOR_SIGS
+    if _ANCHOR_SIGS is None:
+        try:
+            with open(os.path.join(os.path.dirname(os.path.abspath(__file__)), "anchor_sigs.json")) as f:
+                _ANCHOR_SIGS = json.load(f)
+        except OSError:
+            _ANCHOR_SIGS = {}
+    present = {f["fn"] for f in d.get("thir") or []}
+    out = {}
+    for anchor, sg in _ANCHOR_SIGS.items():
+        if anchor in present:
+            continue
+        cands = [f["fn"] for f in d.get("thir") or [] if "{closure" not in f["fn"] and f["fn"] not in _ANCHOR_SIGS
+                 and [[p.get("ty") for p in f["params"]], f["body"].get("ty")] == sg]
+        if len(cands) == 1 and cands[0] not in out:
+            out[cands[0]] = anchor
+    return out
+
+
 class Facts:
     def __init__(self, path):
         with open(path) as f:
-            d = json.load(f)
+            text = f.read()
+        d = json.loads(text)
+        self.renamed = _anchor_aliases(d)
+        if self.renamed:
+            for new_, old_ in self.renamed.items():
+                text = re.sub('"' + re.escape(json.dumps(new_)[1:-1]) + r'(?="|::\{)', lambda m_: '"' + json.dumps(old_)[1:-1], text)
+            d = json.loads(text)
         self.path = path
         self.raw = d
         self.features = d["features"]
